@@ -84,6 +84,18 @@ def run(r: Run):
         real = [i for i in isos if i != 0]
         if real:
             variants += [f"{s_}[{n}]" for n in range(max(1, min(real) - 2), max(real) + 3) if n not in real]
+    # every real isotope number respelled with characters that are NOT ASCII digits but look like them to a careless
+    # decoder: same low byte (U+0430.., U+0130..), other decimal-digit blocks (Arabic-Indic U+0660.., fullwidth U+FF10..),
+    # and isotope + k*65536
+    lookalike = []
+    for s_, isos in kd.items():
+        for n in [i for i in isos if i != 0][:2]:
+            for base in (0x0430, 0x0130, 0x0660, 0xFF10, 0x1D7CE):
+                lookalike.append(f"{s_}[" + "".join(chr(base + int(d)) for d in str(n)) + "]")
+            ds = str(n)
+            lookalike.append(f"{s_}[{ds[:-1]}{chr(0x0430 + int(ds[-1]))}]")
+            lookalike += [f"{s_}[{n + 65536}]", f"{s_}[{n + 2 * 65536}]", f"{s_}[{n + 4294967296}]"]
+    variants += lookalike if thorough else lookalike[:: 2]
     rnd = ["".join(rng.choice(ALPHABET + ["H", "O", "0", "3", "e", "*"]) for _ in range(rng.randint(7, 24))) for _ in range(2000 if thorough else 300)]
     allstr = strings + variants + exhaustive + muts + rnd
     plines = [f"parse\t{cps(s)}" for s in allstr]
@@ -123,6 +135,13 @@ def run(r: Run):
             for form in (("vec", "map", "evec", "emap") if thorough or iso in isos[:2] or iso == 0 else ("vec", "emap")):
                 rlines.append(f"read\t{form}\t{c}\t{cps(text)}")
                 meta.append((text, form))
+    for text in (lookalike if thorough else lookalike[:: 4]):
+        sym = text.split("[")[0]
+        real = [i for i in kd.get(sym, []) if i != 0][:2]
+        c = ",".join(f"{sym}:{i}=7" for i in real) + f",{sym}:0=3"
+        for form in ("vec", "emap"):
+            rlines.append(f"read\t{form}\t{c}\t{cps(text)}")
+            meta.append((text, form))
     ri, rm = r.impl("spec", rlines), r.model("spec", rlines)
     for (s, form), line, a, b in zip(meta, rlines, ri, rm):
         model, spec = b.split("\t")
